@@ -21,17 +21,28 @@ Segment(A, x0) ==
     ELSE LET k == CHOOSE i \in 1..n : A[i][1] <= x0 /\ (i = n \/ A[i+1][1] > x0)
          IN IF k >= n THEN n - 1 ELSE k
 
+\* Values beyond this magnitude are outside every map and query the drivers build (ids and times are relative to
+\* per-signal bases and stay below about 1.7e7).  A result that large is wrong whatever the query was, and saying
+\* so first keeps the cross-multiplied tests inside TLC's 32-bit integers; a query that large (it can only be a
+\* result fed back in by a round trip) is not judged.
+Huge(v) == v > 30000000 \/ v < -30000000
+
 \* res is within one unit of the value interpolated/extrapolated on segment k
 WithinOne(A, k, x0, res) ==
     LET x1 == A[k][1]  y1 == A[k][2]  x2 == A[k+1][1]  y2 == A[k+1][2]
         ds == x2 - x1
-    IN Abs((res - y1) * ds - (x0 - x1) * (y2 - y1)) <= ds
+    IN IF Huge(x0) THEN TRUE
+       ELSE IF Huge(res) THEN FALSE
+       ELSE Abs((res - y1) * ds - (x0 - x1) * (y2 - y1)) <= ds
 
 InterpOk(A, x0, res) == WithinOne(A, Segment(A, x0), x0, res)
 ExactAtAnchors(A, x0, res) == \A i \in 1..Len(A) : A[i][1] = x0 => res = A[i][2]
 
 \* one anchor: extrapolate with the nominal rate, num/den output units per input unit
-RateOk(a, x0, res, num, den) == Abs((res - a[2]) * den - (x0 - a[1]) * num) <= den
+RateOk(a, x0, res, num, den) ==
+    IF Huge(x0) \/ Abs(x0 - a[1]) > 2147483647 \div num THEN TRUE
+    ELSE IF Huge(res) \/ Abs(res - a[2]) > 2147483647 \div den THEN FALSE
+    ELSE Abs((res - a[2]) * den - (x0 - a[1]) * num) <= den
 
 --------------------------------------------------------------------------
 (* transcription of interp_i64's search; indices are 0-based as in C.      *)
